@@ -5,7 +5,8 @@ from .. import accessors, core, gen
 
 RULE = ("structures: random consistent Atoms (≤6 atoms quick / ≤7 thorough, mixed term kinds, coefficient tables, extra "
         "columns); deletions: EVERY non-empty ordered subset for the small structures (a share of them also in numpy's "
-        "negative spelling k - n), random subsets (in random listing order, 30% with negative spellings) for larger ones; pop() and pop(i) for every i in [-n, n). Non-trivial = distinct input whose deletion "
+        "negative spelling k - n), random subsets (in random listing order, 30% with negative spellings) for larger ones; every index list reaches the code as a list, a "
+        "tuple, an integer ndarray, a list of numpy integers or a range, chosen by its content; pop() and pop(i) for every i in [-n, n). Non-trivial = distinct input whose deletion "
         "removes at least one term and keeps at least one term.")
 
 
@@ -33,6 +34,23 @@ def oracle_delete(a, idx, r):
     return None
 
 
+def _spell(idx):
+    """the index list in one of its public spellings, chosen by its content (the model always sees the plain list):
+    list, tuple, integer ndarray, list of numpy integers, range (where the list is one)"""
+    import numpy as np
+    idx = list(idx)
+    how = (7 * len(idx) + sum(abs(int(i)) for i in idx)) % 5
+    if how == 1:
+        return tuple(idx)
+    if how == 2:
+        return np.array(idx, dtype=int)
+    if how == 3:
+        return [np.int64(i) for i in idx]
+    if how == 4 and idx and all(i >= 0 for i in idx) and idx == list(range(idx[0], idx[0] + len(idx))):
+        return range(idx[0], idx[0] + len(idx))
+    return idx
+
+
 def _accessors_after(a):
     """the derived accessors (elements, symbols, len, num_*_types, label_atoms, to_ase) of the object that was just
     shortened must agree with its arrays; a mismatch surfaces as the error kind `AccessorStale` of the operation"""
@@ -45,7 +63,7 @@ def _delete(aj, idx):
     def f():
         a = core.atoms_from_json(aj)
         accessors.touch(a)           # accessors read before …
-        del a[list(idx)]
+        del a[_spell(idx)]
         _accessors_after(a)          # … and after the deletion, on the same object
         return core.canon_atoms(a)
     return core.result_of(f)
